@@ -707,7 +707,7 @@ impl MonoEnc {
                     match post {
                         None => stmts.push(format!("MCall (NPlain {}) [{}]", self.id(n), a.join(";"))),
                         Some(pn) => match pn.inst_base.get(n.as_str()) {
-                            Some(base) => obs.push(format!("CInstOf {}", base)),
+                            Some(bk) => obs.push(format!("CInst {}", bk)),
                             None => obs.push(format!("CPlain {}", self.id(n))),
                         },
                     }
@@ -736,8 +736,8 @@ impl MonoEnc {
 }
 
 struct PostNames {
-    /// instance function name -> interned base name id
-    inst_base: HashMap<String, u32>,
+    /// instance function name -> "base [key]" (interned base name id and type_to_string key term)
+    inst_base: HashMap<String, String>,
     /// renamed struct-init name -> (interned base id, key term)
     renamed: HashMap<String, (u32, String)>,
 }
@@ -805,8 +805,8 @@ fn mono_case(pre: &AirProgram, post: &AirProgram) -> (String, String) {
         let base = enc.id(&base_name);
         inst_rows.push(format!("({}, {})", base, enc.tys(&i.type_args)));
         if let Some(f) = post.functions.iter().find(|f| f.id == i.result) {
-            pn.inst_base.insert(f.name.clone(), base);
             let k: Vec<String> = i.type_args.iter().map(|t| enc.key1(t)).collect();
+            pn.inst_base.insert(f.name.clone(), format!("{} [{}]", base, k.join(";")));
             inst_name_term.insert(f.id.0, format!("NMono {} [{}]", base, k.join(";")));
         }
         // renamed struct-init names this instance can contain
@@ -1341,13 +1341,21 @@ fn run_case(case: &str, code: &str, modes: &[&str], st: &mut Stats) {
             println!("V\t{}\t{}\tpre\t{}\t{}\t{}\t{}", case, mode, ix, esc(&f.fn_name), f.kind, esc(&f.detail));
         }
         let pre2 = pre.clone();
+        // the calls AirLowerStage makes: a layout error ends the stage with a diagnostic
         let post = guarded(std::panic::AssertUnwindSafe(move || {
             let mut p = pre2;
-            aelys_air::layout::compute_layouts(&mut p);
-            aelys_air::mono::monomorphize(p)
+            match aelys_air::layout::try_compute_layouts(&mut p) {
+                Ok(()) => Ok(aelys_air::mono::monomorphize(p)),
+                Err(e) => Err(e.to_string()),
+            }
         }));
         let post = match post {
-            Ok(p) => p,
+            Ok(Ok(p)) => p,
+            Ok(Err(e)) => {
+                st.hit("layout-error-reported");
+                println!("LAYOUTERR\t{}\t{}\t{}", case, mode, esc(&e));
+                continue;
+            }
             Err(m) => {
                 println!("PANIC\t{}\t{}\tlayout+mono\t{}", case, mode, esc(&m));
                 continue;
